@@ -1098,7 +1098,7 @@ func runC10(r *RunCtx) error {
 				if own := g.ownerOf(preL[0].F); own >= 0 {
 					tgt := preL[0].F
 					acct := hexsha(g.accts[own].String())
-					for ci, plain := range []string{g.accts[3].String(), strings.ToUpper(g.accts[2].String())} {
+					for ci, plain := range []string{g.accts[3].String(), strings.ToUpper(g.accts[2].String()), strings.ToUpper(hexsha(g.accts[1].String()))} {
 						named := g.accts[3-ci].String()
 						child := hexsha(fmt.Sprintf("handed-to-plain-address-%d", ci))
 						addr := fttypes.AddToMerkle(tgt.Address, child)
@@ -1113,6 +1113,15 @@ func runC10(r *RunCtx) error {
 							c10Op{Kind: "chown", Creator: named, Address: addr, FileOwner: plain, NewOwner: hexsha(named), Shape: "named-by-plain-address"},
 							c10Op{Kind: "delete", Creator: named, HashPath: addr, Account: plain, Shape: "named-by-plain-address"})
 					}
+				}
+			}
+			// directed: an entry whose access lists are accepted but are not JSON (only non-emptiness is demanded); it
+			// stays its owner's until the owner deletes it - also across the restart at the end of the history
+			if h%2 == 0 && s == len(opening) && len(opening) > 0 && len(preL) > 0 {
+				if own := g.ownerOf(preL[0].F); own >= 0 {
+					tn := g.tracking()
+					queue = append(queue, c10Op{Kind: "post", Creator: g.accts[own].String(), Account: hexsha(g.accts[own].String()), HashParent: preL[0].F.Address, HashChild: hexsha("lists-that-are-not-json"),
+						Contents: "c", Viewers: "nobody", Editors: "nobody", Tracking: tn, Shape: "non-json-lists"})
 				}
 			}
 			if len(queue) > 0 && forced == nil && s >= len(opening) {
@@ -1185,6 +1194,32 @@ func runC10(r *RunCtx) error {
 			}
 			if h == 0 && s < 3 {
 				r.Sample(map[string]interface{}{"op": o, "outcome": res.Out, "entries_after": len(postL)})
+			}
+		}
+		// restart twin: the chain is exported and a new chain started from that genesis; no owner sent anything, so the
+		// tree the new chain serves is the tree the old one held, entry for entry
+		if preL, derr := c10Dump(e, sk); derr == nil && len(preL) > 0 {
+			for _, m := range c19Modules() {
+				if m.Name != "filetree" {
+					continue
+				}
+				nxt, nerr := NewEnv()
+				if nerr != nil {
+					break
+				}
+				var ierr error
+				pn := Guard(func() { ierr = m.Import(nxt, m.Export(e)) })
+				nsk, _ := c10StoreKey(nxt)
+				postL, _ := c10Dump(nxt, nsk)
+				r.Count(fmt.Sprintf("restart:%d:%d", h, len(preL)), true)
+				r.Hist("ops", "restart")
+				if pn != "" || ierr != nil {
+					r.Finding("C10/restart/import-failed", fmt.Sprintf("the filetree genesis the chain exported cannot be imported: %s %v", pn, ierr), map[string]interface{}{"history": hist})
+				} else if d := c10Diff(c10Index(preL), c10Index(postL)); len(d) > 0 {
+					r.Finding("C10/restart/tree-changed-without-a-message", fmt.Sprintf("after a restart from the exported genesis %d of %d entries are gone or differ although no message was sent (first: %s)", len(d), len(preL), d[0]),
+						map[string]interface{}{"history": append(append([]c10Op{}, hist...), c10Op{Kind: "restart", Shape: "export-import"})})
+				}
+				nxt.Close()
 			}
 		}
 		e.Close()
